@@ -181,6 +181,12 @@ func init() {
 		Rule:        "server cases = (schema from the codec profile: every message shape with a custom decoder) x body-carrying RPC x structure-aware mutation of the model-encoded valid body {a field replaced by a value invalid in every accepted form (wrong JSON type, non-numeric / fractional / overflowing numbers, text invalid in the declared bytes/timestamp encoding, at depth <= 3), truncation at any offset, trailing garbage, null/array/scalar at top level, nesting to 200000, invalid UTF-8, duplicate keys, 1e999999, random bytes, random / truncated protobuf wire data} x content types incl. parameters, unknown and empty. Oracle: no panic, status in {200,400}, a 400 body is a ValidationError with >= 1 violation and no dispatch, bodies invalid in every accepted form are never dispatched, dispatched binary bodies equal the reference decoding, latency within 100x the unit's median (re-checked). Client cases = arbitrary (status, content type, body kind) served by a stub transport to the generated Go client: returns value or error, never panics, never hangs (20 s), never reports success for status >= 400 or a transport failure. Non-trivial = wrong-type mutation or a message with a custom decoder (server); any non-valid body (client); distinct by case text.",
 		Assumptions: append([]string{"the deciding search is rapid's structure-aware mutation in both tiers; native coverage-guided fuzzing of generated packages is not registered (per-run packages have no stable corpus)", "duplicate keys, huge numbers and invalid UTF-8 are only judged for clean rejection or faithful dispatch, not for a fixed verdict"}, commonAssumptions...)})
 	registerRuntime(&runtimeCheck{ID: "C17", Profile: schema.ProfileConcurrency, Inner: []string{"c17"}, Prefix: "r", Race: true,
+		Second: &runtimeCheck{Profile: schema.ProfileMock, Inner: []string{"c17mock"}, Prefix: "k", Variant: "server", Param: "generate_mock=true", Race: true,
+			Filter: func(s *schema.Schema, avoid map[string]string) bool {
+				return avoid["mock_unsupported_fields"] == "" || schema.MockCompilable(s)
+			},
+			Batches: [2]int{1, 4}, PerBatch: [2]int{24, 32}, Cases: [2]int{20, 60},
+			Rule: "the generated server backed by the emitted mock implementation (generate_mock=true): random multisets of 8-40 valid calls over all routes and services of the package at parallelism {2,4,8,16} under the race detector; mock answers are random, so the oracle is that every call answered 200 alone is answered 200 in the crowd, nothing panics and the race detector stays silent"},
 		Batches: [2]int{1, 8}, PerBatch: [2]int{32, 32}, Cases: [2]int{40, 120},
 		Rule:        "cases = (multi-service, multi-method schema with distinct per-route required headers and URL parameters) x random multiset of 10-80 calls (route, request, per-call header options present/absent, content type) x parallelism in {1,2,4,8,16,32}; calls run concurrently through shared generated clients against one shared generated server in a binary built with -race; handlers are pure functions of the request (incl. deterministic failures). Oracle: no race detector report, and every call's response/error equals the result of the same call issued alone on a fresh server and fresh clients. Non-trivial = multiset touching >= 2 routes at parallelism >= 4; distinct by (parallelism, call list).",
 		Assumptions: append([]string{"schedules are sampled by the Go scheduler, not enumerated: a race-free run says nothing beyond the executions seen (weakest claim of the set)", "in-memory transport: the generated client/server code runs concurrently, the kernel network stack does not"}, commonAssumptions...)})
